@@ -466,11 +466,11 @@ def run_case(case, M, tier="quick"):
         rejected = []
     scriptw = [[Sym("take"), a[1]] if a[0] == "take" else [Sym("merge"), wire.prog(a[1]), wire.ty(a[2])] for a in script]
     ans = M.ask([Sym("cd.run"), gw, k, [wire.prog(p) for p in rejected], scriptw, FUEL])
-    rf, rr = ans
+    rf, rr, na = ans
     corr = []
     out = {"g": g, "costs": costs, "probs": probs, "lang": lang, "steps": steps, "script": script, "err": err, "pred": pred,
            "en": en, "wire": wire, "corr": corr, "rejected": rejected, "fresh": fresh, "rec": rec, "table_bad": table_bad,
-           "float_exact": None, "ys": ys, "M": [(q.maxi, q.k) for q in en._queue_derivation.values()]}
+           "float_exact": None, "ys": ys, "assert_only": rf[0] == "undef" and str(na) == "ok", "M": [(q.maxi, q.k) for q in en._queue_derivation.values()]}
     if rf[0] == "undef":
         if err is None:
             corr.append(("model undefined (fuel or uncaught exception) where the implementation runs", ""))
@@ -500,6 +500,30 @@ def run_case(case, M, tier="quick"):
         out["float_exact"] = False
         out["rat_steps"] = None
     return out
+
+
+FINDING_IDS = {"C02": {"zerodiv": "C02-F4", "assert": "C02-F5"},
+               "C03": {"float": "C03-F5", "zerodiv": "C03-F6", "assert": "C03-F7"},
+               "C12": {"merge": "C12-F5", "filter": "C12-F6", "zerodiv": "C12-F7", "assert": "C12-F8"}}
+
+
+def equal_costs(r):
+    """decidable classifier of the ZeroDivisionError finding: all discretised rule costs are equal and
+    some rule has arguments (then int(self.M) = 0 and the first push divides by maxi = 0)"""
+    cs = {c for row in r["costs"].values() for c in row.values()}
+    return len(cs) == 1 and any(args for rs in r["g"].rules.values() for args, _ in rs.values())
+
+
+def raise_finding(r, pid):
+    """decidable classifiers (functions of the case through the MODEL only) of the two findings that make
+    the enumerator raise: all costs equal (ZeroDivisionError), and `the model is undefined with the
+    assert of CDQueue.push and defined without it` (AssertionError: the bound M of __compute_bounds__ is
+    smaller than the spread of a derivation queue)"""
+    if equal_costs(r):
+        return FINDING_IDS[pid]["zerodiv"]
+    if r.get("assert_only"):
+        return FINDING_IDS[pid]["assert"]
+    return None
 
 
 def flat(steps):
